@@ -6,9 +6,10 @@
    the correspondence and the direct oracle of harness/c10 (see lib/checks/C10.py), not by a theorem.
    Property theorems only: each is closed by [exact <lemma>] and followed by Print Assumptions. *)
 From Coq Require Import String.
-From Verif Require Import Bytes Eml EmlRender.
+From Verif Require Import Bytes WordEnc Writer.
+From Verif Require Import Eml EmlRender EmlWriter.
 From VerifGen Require Import Gen.
-From VerifProofs Require Import EmlProofs EmlRenderProofs.
+From VerifProofs Require Import EmlProofs EmlRenderProofs EmlWriterProofs.
 
 (* (A) For every parsed message (any header content, any part tree) and whichever of From/To/Cc are
    present, the top-level header block written by the next render names no field twice.
@@ -71,6 +72,51 @@ Example C10_filename_encoded_word_refuted :
   parse_cd_filename filename_of (render_cd lit_attachment (bs "=?UTF-8?q?=C3=A4.txt?="))
   = Ok (bs "=?UTF-8?q?=C3=A4.txt?=").
 Proof. vm_compute. reflexivity. Qed.
+
+(* ---------- tier B: the same path with the REAL writer model in front (Writer.file_hdrs) ----------
+   For every file whose header cache holds no Content-Disposition yet (any cached Content-Type, encoding,
+   description), attachment or embed, Q or B word encoder: what addFiles stores as Content-Disposition
+   is parsed back to exactly the word-encoded sanitized name, provided that has no ';'. *)
+Theorem C10_filename_via_writer_partial : forall (wenc : N) (is_att : bool) (f : Writer.file),
+  Writer.get_h Writer.h_cdisp (Writer.f_hdr f) = None ->
+  has 59 (word_encode wenc (EmlRender.sanitize (Writer.f_name f))) = false ->
+  filename_via_writer wenc is_att f = Ok (word_encode wenc (EmlRender.sanitize (Writer.f_name f))).
+Proof. exact filename_via_writer_ok. Qed.
+Print Assumptions C10_filename_via_writer_partial.
+
+(* … so a name without ';' that the word encoder leaves alone comes back as its sanitized form … *)
+Theorem C10_filename_via_writer_plain : forall (wenc : N) (is_att : bool) (f : Writer.file),
+  Writer.get_h Writer.h_cdisp (Writer.f_hdr f) = None ->
+  WordEnc.needs_encoding (EmlRender.sanitize (Writer.f_name f)) = false ->
+  has 59 (Writer.f_name f) = false ->
+  filename_via_writer wenc is_att f = Ok (EmlRender.sanitize (Writer.f_name f)).
+Proof. exact filename_via_writer_plain. Qed.
+Print Assumptions C10_filename_via_writer_plain.
+
+(* … and a name that needs RFC 2047 encoding is NEVER recovered (known finding filename-encoded-word):
+   the parser returns the encoded word, which differs from the name for every such name *)
+Theorem C10_filename_via_writer_encoded_refuted : forall (wenc : N) (is_att : bool) (f : Writer.file),
+  (wenc = 113%N \/ wenc = 98%N) ->
+  Writer.get_h Writer.h_cdisp (Writer.f_hdr f) = None ->
+  wf_bytes (EmlRender.sanitize (Writer.f_name f)) = true ->
+  WordEnc.needs_encoding (EmlRender.sanitize (Writer.f_name f)) = true ->
+  has 59 (word_encode wenc (EmlRender.sanitize (Writer.f_name f))) = false ->
+  exists r, filename_via_writer wenc is_att f = Ok r /\ r <> EmlRender.sanitize (Writer.f_name f).
+Proof. exact filename_via_writer_encoded. Qed.
+Print Assumptions C10_filename_via_writer_encoded_refuted.
+
+(* witnesses through the real writer model (fresh files, Q encoder): '=' and blank survive, ';' cuts,
+   non-ASCII comes back encoded *)
+Example C10_via_writer_plain_example :
+  filename_via_writer 113 true (fresh_file (bs "a=b c.txt") (bs "text/plain")) = Ok (bs "a=b c.txt").
+Proof. exact via_writer_plain_example. Qed.
+Example C10_via_writer_semicolon_refuted :
+  filename_via_writer 113 true (fresh_file (bs "a;b.txt") (bs "text/plain")) = Ok (bs """a").
+Proof. exact via_writer_semicolon_refuted. Qed.
+Example C10_via_writer_encoded_word_refuted :
+  filename_via_writer 113 false (fresh_file [195%N; 164%N; 46%N; 116%N; 120%N; 116%N] (bs "text/plain"))
+  = Ok (bs "=?UTF-8?q?=C3=A4.txt?=").
+Proof. exact via_writer_encoded_refuted. Qed.
 
 (* non-vacuity of (A) *)
 Example C10_example :
